@@ -246,7 +246,18 @@ func (g *ExprGen) CallSpec(c ref.V, spec FuncSpec, depth int) *ref.Node {
 			n.Kids = append(n.Kids, g.Arg(c, AExprAny, depth, first), arr)
 			break
 		}
-		a := g.Arg(c, k, depth, first)
+		var a *ref.Node
+		if (spec.Name == "pad_left" || spec.Name == "pad_right") && i == 1 {
+			// the width legitimately drives the result size: always a small literal
+			// (huge widths are the subject of C03's pad-huge stream and C09)
+			w := int64(r.Intn(14) - 1)
+			a = Lit(IntV(w))
+			if r.Chance(8) {
+				a = Lit(Num(Pick(r, []string{"1.5", "2.0", "1e1", "-0", "3.00"})))
+			}
+		} else {
+			a = g.Arg(c, k, depth, first)
+		}
 		if i == 0 {
 			first = g.eval(a, c)
 		}
